@@ -32,11 +32,9 @@ CLAIM = dict(
          "registers / map entries, every section: flow, identity, capability list, topology, profiles, network config, sleep, heartbeat, dimming, "
          "connections, run-time statistics, messages, map, health, 20-field SysStat) readOutbound(encOut ms) = ms.flatMap effectsOfOut exactly, in "
          "message order, hence the executable comparison approx holds (encOut_sound_approx); non-vacuity example by decide. "
-         "Payload fields (SVG/JSON/message text, flattened by C07) are covered when ASCII with ANY line-feed / indentation structure (proved: the "
-         "flattening keeps exactly the white-space-free content) or arbitrary bytes without LF and outer white space (hypothesis flatMsg, decidable). "
-         "PARTIAL only here: multi-line payloads containing non-ASCII bytes — content(stripLineBreaks s) = content s for multi-byte white-space runes "
-         "at line edges is not proved (same open link as C07) and rests on the correspondence, where exactly this comparison is evaluated on the real "
-         "encoder's output. "
+         "encOut_sound_full: payload fields (SVG/JSON/message text, flattened by C07) are covered for EVERY valid-UTF-8 value with any line-feed / "
+         "indentation structure (Lemmas/StripContent.lean: the flattening keeps exactly the white-space-free content); no hypothesis beyond inDomainOut "
+         "and the float-text oracle convention. "
          "Rests on correspondence: model = OutboundMessagesToRawPanelASCIIstrings (sampled; all 8192 capability subsets in the thorough tier), "
          "float formatting and JSON of NetworkConfig (oracle values), Go map order (map lines compared as a set).",
     note=TB,
